@@ -792,14 +792,35 @@ def check_case(ctx, case, searches, oracle_on=True):
     if not ctx.build.model_ok:
         return
     ft, pt = case.tables(fids, pids)
-    cmds = []
+    qidx, qlist, cmds = {}, [], []
     for (start, axis, singular, q, via_call) in searches:
-        if via_call:
-            cmds.append([2, axis == 0, start, enc_query(q)])
-        else:
-            cmds.append([1 if singular else 0, axis, start, enc_query(q)])
-        cmds.append([4, axis, start, enc_query(dict(q, limit=None) if singular else q)])
-    out = ctx.model.run([[10000, case.forest.dump(), case.ext(), ft, pt, cmds]])[0]
+        key = repr((q["name"], q["attrs"], q["string"], q["kwargs"]))
+        if key not in qidx:
+            qidx[key] = len(qlist)
+            qlist.append(enc_query(dict(q, limit=None)))
+        lim = [] if (q["limit"] is None or (singular and not via_call)) else [q["limit"]]
+        cmds.append([2 if via_call else (1 if singular else 0), axis, start, qidx[key], lim])
+    # the extracted model is started as few times as possible: commands are queued and run in batches
+    _PENDING.append(([10001, case.forest.dump(), case.ext(), ft, pt, qlist, cmds], case, searches, impl, wf))
+    if len(_PENDING) >= 60:
+        flush_model(ctx)
+
+
+_PENDING = []
+
+
+def flush_model(ctx):
+    """Run the queued model commands in one go and compare each with the implementation's results."""
+    global _PENDING
+    pending, _PENDING = _PENDING, []
+    if not pending:
+        return
+    outs = ctx.model.run([p[0] for p in pending], chunk=30)
+    for (cmd, case, searches, impl, wf), out in zip(pending, outs):
+        compare_model(ctx, case, searches, impl, wf, out)
+
+
+def compare_model(ctx, case, searches, impl, wf, out):
     if isinstance(out, tuple):
         ctx.disagree("extracted model failed", {"tree": case.describe()}, None, out[1])
         return
@@ -807,7 +828,7 @@ def check_case(ctx, case, searches, oracle_on=True):
         res, log = impl[k]
         if isinstance(res, str):
             continue
-        m, sp = out[2 * k], out[2 * k + 1]
+        m, sp = out[k][:2], out[k][2:]
         cdesc = {"tree": case.describe(), "start": start, "method": (SINGULAR if singular else PLURAL)[axis] +
                  ("(recursive=False)" if axis == 1 else "") + (" via tag(...)" if via_call else ""), "query": q}
         mres = (m[0][0] if m[0] else None) if (singular and not via_call) else m[0]
@@ -940,7 +961,24 @@ def shorthand_block(ctx, case):
                     ctx.fail({"tree": case.describe(), "start": start, "query": q, "recursive": rec},
                              "tag(...) is not tag.find_all(...)", [case.forest.oid(x) for x in a], [case.forest.oid(x) for x in b], tag="shorthand")
     if ctx.build.model_ok and cmds:
-        out = ctx.model.run([[10000, case.forest.dump(), case.ext(), [], [], cmds]])[0]
+        _PENDING_SH.append(([10000, case.forest.dump(), case.ext(), [], [], cmds], case, items))
+        if len(_PENDING_SH) >= 60:
+            flush_shorthand(ctx)
+
+
+_PENDING_SH = []
+
+
+def flush_shorthand(ctx):
+    global _PENDING_SH
+    pending, _PENDING_SH = _PENDING_SH, []
+    if not pending:
+        return
+    outs = ctx.model.run([p[0] for p in pending], chunk=60)
+    for (cmd, case, items), out in zip(pending, outs):
+        if isinstance(out, tuple):
+            ctx.disagree("extracted model failed", {"tree": case.describe()}, None, out[1])
+            continue
         for (start, nm, got), m in zip(items, out):
             mm = ["AttributeError"] if not m else ["ok", (m[0][0][0] if m[0][0] else None)]
             if mm != got and case.names_wf():
@@ -1039,6 +1077,14 @@ def corpus_cases():
 
 # ----------------------------------------------------------------------------------- entry points
 def run(ctx):
+    try:
+        run_all(ctx)
+    finally:
+        flush_model(ctx)
+        flush_shorthand(ctx)
+
+
+def run_all(ctx):
     rng = ctx.rng
     with warnings.catch_warnings():
         warnings.simplefilter("ignore")
